@@ -32,8 +32,13 @@
 using vx::Forced;
 
 // ---------------------------------------------------------------- sanitizer hooks (C08)
+#include "sanhook.hpp"
 static volatile long g_san_reports = 0;
 static std::string g_san_last;
+#if defined(__SANITIZE_ADDRESS__)
+static void dx_ubsan_seen() { g_san_reports = g_san_reports + 1; }
+static const bool g_ubsan_cb_installed = ((g_ubsan_callback = dx_ubsan_seen), true);
+#endif
 extern "C" {
 #if defined(__SANITIZE_ADDRESS__)
 void __asan_on_error() { g_san_reports++; g_san_last = "asan"; }
